@@ -245,6 +245,78 @@ theorem updateSubset_eq (ms : List M) (dofs : List (Nat × DofSpec)) (ps : List 
             (by rw [totalSelected_setAt ms pos m hm]; exact hr) (by simp; omega)
           simp [updateSubset, assignSubset, hm, hk, h1, h2, bind, Except.bind]
 
+/-! #### the same with global slices: entry `t` reads `ps[off_t : off_t + k_t]`, `off_t = Σ_{u<t} k_u` -/
+
+/-- number of parameters each entry selects (determined by the kinds of the addressed models) -/
+def ksOf (ms : List M) (dofs : List (Nat × DofSpec)) : List Nat :=
+  dofs.map fun e => ((ms[e.1]?).bind fun m => m.consumed e.2).getD 0
+
+/-- apply the entries, each with the slice it is given -/
+def applyEntries (ms : List M) : List ((Nat × DofSpec) × List Rat) → List M
+  | [] => ms
+  | (e, sl) :: rest =>
+    match ms[e.1]? with
+    | none => ms
+    | some m => applyEntries (setAt ms e.1 (m.withDofs sl e.2)) rest
+
+theorem ksOf_setAt (ms : List M) (pos : Nat) (m : M) (hm : ms[pos]? = some m) (sl : List Rat)
+    (d : DofSpec) (dofs : List (Nat × DofSpec)) :
+    ksOf (setAt ms pos (m.withDofs sl d)) dofs = ksOf ms dofs := by
+  have hpos : pos < ms.length := by
+    by_contra hc
+    rw [List.getElem?_eq_none (by omega)] at hm; cases hm
+  unfold ksOf
+  apply List.map_congr_left
+  intro e _
+  rw [setAt_getElem? ms pos e.1 _ hpos]
+  by_cases hp : e.1 = pos
+  · simp [hp, hm, M.consumed_withDofs]
+  · simp [hp]
+
+theorem totalSelected_eq_sum (ms : List M) (dofs : List (Nat × DofSpec)) (t : Nat)
+    (ht : totalSelected ms dofs = some t) : (ksOf ms dofs).sum = t := by
+  induction dofs generalizing t with
+  | nil => simp [totalSelected] at ht; simp [ksOf, ← ht]
+  | cons e rest ih =>
+    obtain ⟨pos, spec⟩ := e
+    simp only [totalSelected] at ht
+    cases hm : ms[pos]? with
+    | none => simp [hm] at ht
+    | some m =>
+      cases hk : m.consumed spec with
+      | none => simp [hm, hk] at ht
+      | some k =>
+        cases hr : totalSelected ms rest with
+        | none => simp [hm, hk, hr] at ht
+        | some t' =>
+          simp only [hm, hk, hr, Option.some.injEq] at ht
+          have := ih t' hr
+          simp only [ksOf, List.map_cons, List.sum_cons, hm, Option.bind_some, hk, Option.getD_some] at this ⊢
+          omega
+
+theorem assignSubset_eq_slices (ms : List M) (dofs : List (Nat × DofSpec)) (ps : List Rat) (t : Nat)
+    (ht : totalSelected ms dofs = some t) :
+    assignSubset ms dofs ps = applyEntries ms (dofs.zip (slices (ksOf ms dofs) ps)) := by
+  induction dofs generalizing ms ps t with
+  | nil => rfl
+  | cons e rest ih =>
+    obtain ⟨pos, spec⟩ := e
+    simp only [totalSelected] at ht
+    cases hm : ms[pos]? with
+    | none => simp [hm] at ht
+    | some m =>
+      cases hk : m.consumed spec with
+      | none => simp [hm, hk] at ht
+      | some k =>
+        cases hr : totalSelected ms rest with
+        | none => simp [hm, hk, hr] at ht
+        | some t' =>
+          have h2 := ih (setAt ms pos (m.withDofs (ps.take k) spec)) (ps.drop k) t'
+            (by rw [totalSelected_setAt ms pos m hm]; exact hr)
+          rw [ksOf_setAt ms pos m hm] at h2
+          simp only [assignSubset, hm, hk, Option.getD_some, h2]
+          simp [ksOf, slices, applyEntries, hm, hk]
+
 /-! ### polynomial space -/
 
 theorem mem_polyExps (d i j : Nat) : (i, j) ∈ polyExps d ↔ i + j ≤ d := by
